@@ -374,7 +374,7 @@ class C05(RenderProp):
     id = "C05"
     n_quick = 3000
     n_thorough = 50000
-    required_theorems = ["C05_trim_only_class", "C05_false_omitted", "C05_value_escaped", "C05_value_no_quote"]
+    required_theorems = ["C05_trim_only_class", "C05_false_omitted", "C05_value_escaped", "C05_value_no_quote", "C05_true_named", "C05_order_first_occurrence", "C05_last_value_wins", "C05_class_accumulates"]
     rule = ("random attribute lists (0-7 attributes: string literals incl. padded/empty, hostile data strings, numbers as variable/literal/expression/fraction, "
             "booleans/null/undefined as literal and data, class as literal/variable/array/mixed array/empty/hostile and repeated, unescaped literals, concatenations) plus "
             "&attributes(obj) spreads (strings, booleans, class+id). Oracle: golang.org/x/net/html tokenizer reads the first tag back; its (name, value) list must equal the "
